@@ -55,7 +55,12 @@ def gen_decl(rnd, k, opts=None):
     ctxpos = {}
 
     types_src = []
-    def T(j): return "*%sT%d" % (P, j)
+    # the requested type is occasionally a named function or channel type (not nil-able by composite literal, still nil-able)
+    rkind = rnd.choice([None] * 8 + ["fn", "ch"]) if structnode != 0 and not opts.get("ret_is_arg") else None
+    def T(j):
+        if j == 0 and rkind:
+            return "%sR%s" % (P, rkind)
+        return "*%sT%d" % (P, j)
     for i in range(n):
         types_src.append(("T", i))
 
@@ -656,6 +661,12 @@ def go_type_decls(d):
             flds = "; ".join("%s %s" % (f[0], f[1]) for f in reversed(sp["fields"]))   # declared in reverse-sorted order
             out.append("type %s struct { %s; s string; hidden int }\n" % (base, flds))
             out.append("func (x *%s) Term() string { if x == nil { return \"<nil>\" }; return x.s }\n" % base)
+        elif base == P + "Rfn":
+            out.append("type %s func() string\n" % base)
+            out.append("func (x %s) Term() string { if x == nil { return \"<nil>\" }; return x() }\n" % base)
+        elif base == P + "Rch":
+            out.append("type %s chan string\n" % base)
+            out.append("func (x %s) Term() string { if x == nil { return \"<nil>\" }; s := <-x; x <- s; return s }\n" % base)
         elif base.startswith(P + "IF"):
             out.append("type %s interface { Term() string; Is%s() }\n" % (base, base))
         else:
@@ -697,7 +708,7 @@ def render_provider(d, i, p):
     body = ["\th := verifrt.Enter(%s, []string{%s})\n" % (json.dumps(p["fn"]), args)]
     zero = []
     for g in p["provides"]:
-        zero.append("nil" if g[0].startswith("*") else g[0] + "{}")
+        zero.append("nil" if (g[0].startswith("*") or g[0].endswith(("Rfn", "Rch"))) else g[0] + "{}")
     if p["fallible"]:
         ctxs = [q for q, t in enumerate(p["requires"]) if t == CTX]
         call = "h.ExitCtx(p%d, true)" % ctxs[0] if ctxs else "h.Exit(true)"
@@ -709,7 +720,11 @@ def render_provider(d, i, p):
         t = g[0]
         base = t.lstrip("*")
         sp = [q for q in d["provs"] if q["kind"] == "struct" and q["type"] == t]
-        if sp:
+        if base == P + "Rfn":
+            vals.append("func() %s { t0 := h.Term(%d); return func() string { return t0 } }()" % (base, gi))
+        elif base == P + "Rch":
+            vals.append("func() %s { c := make(%s, 1); c <- h.Term(%d); return c }()" % (base, base, gi))
+        elif sp:
             flds = ", ".join("%s: %s{S: h.Term(%d) + \".%s\"}" % (f[0], f[1], gi, f[0]) for f in sp[0]["fields"])
             vals.append("&%s{%s, s: h.Term(%d)}" % (base, flds, gi))
         elif base.startswith(P + "St") or base.startswith(P + "OSt"):
